@@ -23,7 +23,9 @@ Subset and semantics (the translator's assumptions, i.e. the trusted part):
     (NumPy adds pairwise: equal over R, a rounding-level difference in binary64) over the length; `np.arange(a, b)` is
     the list a .. b-1; `np.min([a, b])` / `np.max([a, b])` of two ints is `Z.min` / `Z.max`, of two floats the
     comparison-based minimum / maximum (finite values); `np.minimum(u, v)` is elementwise; `len` is the length;
-    `u ** 2` is `u * u`; `np.sqrt`, `np.log` elementwise;
+    `u ** 2` is `u * u`; `np.sqrt`, `np.log` elementwise; `np.hstack((u, v))` is `u ++ v`; an elementwise operation on TWO
+    arrays pairs their entries up to the shorter one (`g_map2`): equal lengths are assumed -- in the translated code both
+    operands are histograms over the same bins (NumPy would raise, or broadcast a length-1 array, otherwise);
   * `X[X == 0.0] = c` replaces the entries equal to 0.0 by c; `sys.float_info.min` is 2^-1022 (written as a quotient of
     integers); `X.shape[0]` is the length of a 1-D array;
   * library calls listed in `FN_ORACLES` are UNINTERPRETED functions (section parameters of GFn.v): the theorems hold
@@ -209,8 +211,22 @@ class Fn:
             raise Unsupported(f"**kwargs in a call of {f}")
         isv = lambda t: isinstance(t, tuple) and t[0] == "vec"
         # ---- oracles
+        if f in self.tr.oracles and isinstance(self.tr.oracles[f], list):
+            # an overloaded library function: the first declared signature that fits the call's argument names and types
+            last = None
+            for o in self.tr.oracles[f]:
+                try:
+                    return self.oracle_call(o, f, n, kw, env)
+                except Unsupported as e:
+                    last = e
+            raise Unsupported(f"oracle {f}: no declared signature fits ({last})")
         if f in self.tr.oracles:
-            o = self.tr.oracles[f]
+            return self.oracle_call(self.tr.oracles[f], f, n, kw, env)
+        return self.call_rest(n, f, kw, env)
+
+    def oracle_call(self, o, f, n, kw, env):
+        isv = lambda t: isinstance(t, tuple) and t[0] == "vec"
+        if True:
             names = o.get("params") or [f"_{i}" for i in range(len(o["ptypes"]))]
             given = {}
             for nm, a in zip(names, n.args):
@@ -252,6 +268,8 @@ class Fn:
             if lifted:
                 return f"(map (fun x_ => {app}) {lifted[0]})", vec(o["ret"])
             return app, o["ret"]
+    def call_rest(self, n, f, kw, env):
+        isv = lambda t: isinstance(t, tuple) and t[0] == "vec"
         # ---- calls of other translated units: Class._static(...)
         if isinstance(n.func, ast.Attribute) and isinstance(n.func.value, ast.Name) and (n.func.value.id, n.func.attr) in self.tr.by_src:
             u = self.tr.by_src[(n.func.value.id, n.func.attr)]
@@ -282,6 +300,11 @@ class Fn:
             if a[1] == NUM and b[1] == NUM:
                 return f"(g_{f[3:]} {a[0]} {b[0]})", NUM
             raise Unsupported(f"{f} of {a[1]}, {b[1]}")
+        if f == "np.hstack" and len(n.args) == 1 and isinstance(n.args[0], ast.Tuple) and len(n.args[0].elts) == 2 and not kw:
+            a, b = (self.ev(e, env) for e in n.args[0].elts)
+            if a[1] == vec(NUM) and b[1] == vec(NUM):
+                return f"({a[0]} ++ {b[0]})", vec(NUM)
+            raise Unsupported(f"np.hstack of {a[1]}, {b[1]}")
         args = [self.ev(a, env) for a in n.args]
         # ---- methods of arrays
         if isinstance(n.func, ast.Attribute) and not n.args and not kw and n.func.attr in ("sum", "mean"):
